@@ -279,6 +279,10 @@ func (p *program) loadProgram() error {
 	if sizes == nil {
 		return fmt.Errorf("can't find sizes info for %s", runtime.GOARCH)
 	}
+	goVersion, err := linter.ParseGoVersion(p.goVersion)
+	if err != nil {
+		return fmt.Errorf("parse -go flag: %w", err)
+	}
 
 	p.fset = token.NewFileSet()
 	mode := packages.NeedName |
@@ -301,7 +305,7 @@ func (p *program) loadProgram() error {
 
 	p.loadedPackages = pkgs
 	p.ctx = linter.NewContext(p.fset, sizes)
-	p.ctx.SetGoVersion(p.goVersion)
+	p.ctx.GoVersion = goVersion
 
 	return nil
 }
